@@ -419,3 +419,65 @@ Example C19_example_experiment :
   (e_trials_solved e, e_success_rate fnum e, e_best_fitness fnum e [1%Z; 0%Z], e_avg_winner_statistics fnum e)
   = (1%Z, 0.5%float, Ok [15.5; 2]%float, (5, 7, 100, 4)%float).
 Proof. vm_compute. reflexivity. Qed.
+
+(* ============================================================================================ *)
+(* ==== the model of the aggregate accessors tied to the source by translation ================= *)
+(* ============================================================================================ *)
+(* gen/ExperAggr.v is regenerated on every run (translator experaggr, harness/c19_translate.go)    *)
+(* from the BODIES of the accessors of experiment/trial.go and experiment/experiment.go: range      *)
+(* loops as folds over the assigned variables (with [go_range] when the body returns), make + x[i]  *)
+(* as a zeroed list updated in place, int / time.Duration division as Z.quot, float64 arithmetic as *)
+(* the operations of the number structure.  For every number structure and every input each model  *)
+(* function of model/Exper.v equals the translated body (proofs/ExperAggrAgree.v, checked in).      *)
+(* Editing one of these bodies in the source either keeps this theorem valid or breaks it.          *)
+(* ============================================================================================ *)
+From NeatModel Require ExperAggr ExperAggrAgree.
+
+Theorem C19_model_is_the_translated_source : forall (F : Type) (N : num F),
+  (forall t : @trial F, t_avg_epoch_duration t = ExperAggr.gen_Trial_AvgEpochDuration t) /\
+  (forall t : @trial F, t_solved t = ExperAggr.gen_Trial_Solved t) /\
+  (forall t : @trial F, t_diversity N t = ExperAggr.gen_Trial_Diversity N t) /\
+  (forall t : @trial F, t_champions_fitness N t = ExperAggr.gen_Trial_ChampionsFitness N t) /\
+  (forall t : @trial F, t_champion_species_ages N t = ExperAggr.gen_Trial_ChampionSpeciesAges N t) /\
+  (forall t : @trial F, t_champions_complexities N t = ExperAggr.gen_Trial_ChampionsComplexities N t) /\
+  (forall e : list (@trial F), e_avg_trial_duration e = ExperAggr.gen_Experiment_AvgTrialDuration e) /\
+  (forall e : list (@trial F), e_avg_epoch_duration e = ExperAggr.gen_Experiment_AvgEpochDuration e) /\
+  (forall e : list (@trial F), e_avg_generations_per_trial N e = ExperAggr.gen_Experiment_AvgGenerationsPerTrial N e) /\
+  (forall e : list (@trial F), e_solved e = ExperAggr.gen_Experiment_Solved e) /\
+  (forall e : list (@trial F), e_trials_solved e = ExperAggr.gen_Experiment_TrialsSolved e) /\
+  (forall e : list (@trial F), e_success_rate N e = ExperAggr.gen_Experiment_SuccessRate N e) /\
+  (forall e : list (@trial F), e_epochs_per_trial N e = ExperAggr.gen_Experiment_EpochsPerTrial N e) /\
+  (forall e : list (@trial F), e_avg_diversity N e = ExperAggr.gen_Experiment_AvgDiversity N e).
+Proof.
+  intros F N.
+  exact (conj ExperAggrAgree.Trial_AvgEpochDuration_agrees
+        (conj ExperAggrAgree.Trial_Solved_agrees
+        (conj (ExperAggrAgree.Trial_Diversity_agrees N)
+        (conj (ExperAggrAgree.Trial_ChampionsFitness_agrees N)
+        (conj (ExperAggrAgree.Trial_ChampionSpeciesAges_agrees N)
+        (conj (ExperAggrAgree.Trial_ChampionsComplexities_agrees N)
+        (conj ExperAggrAgree.Experiment_AvgTrialDuration_agrees
+        (conj ExperAggrAgree.Experiment_AvgEpochDuration_agrees
+        (conj (ExperAggrAgree.Experiment_AvgGenerationsPerTrial_agrees N)
+        (conj ExperAggrAgree.Experiment_Solved_agrees
+        (conj ExperAggrAgree.Experiment_TrialsSolved_agrees
+        (conj (ExperAggrAgree.Experiment_SuccessRate_agrees N)
+        (conj (ExperAggrAgree.Experiment_EpochsPerTrial_agrees N)
+              (ExperAggrAgree.Experiment_AvgDiversity_agrees N)))))))))))))).
+Qed.
+Print Assumptions C19_model_is_the_translated_source.
+
+(* the translated bodies run (binary64): the experiment of C19_example_experiment *)
+Example C19_example_translated_source :
+  let ch f := Some {| o_fitness := f; o_hfit := 0%float; o_age := Some 3%Z; o_cplx := 5%Z |} in
+  let g s f du := {| g_solved := s; g_champ := ch f; g_fitness := [1; 2]%float; g_age := [1]%float;
+                     g_complexity := []; g_diversity := 4%Z; g_wnodes := 5%Z; g_wgenes := 7%Z;
+                     g_wevals := 100%Z; g_duration := du |} in
+  let e := [ {| t_gens := [g false 1%float 10%Z; g true 15.5%float (-15)%Z]; t_winner := None; t_duration := 7%Z |};
+             {| t_gens := [g false 2%float 9%Z]; t_winner := None; t_duration := 8%Z |} ] in
+  (ExperAggr.gen_Experiment_TrialsSolved e, ExperAggr.gen_Experiment_SuccessRate fnum e,
+   ExperAggr.gen_Experiment_AvgTrialDuration e, ExperAggr.gen_Experiment_AvgEpochDuration e,
+   ExperAggr.gen_Experiment_EpochsPerTrial fnum e, ExperAggr.gen_Experiment_AvgDiversity fnum e,
+   ExperAggr.gen_Experiment_AvgTrialDuration (@nil (@trial float)))
+  = (1%Z, 0.5%float, 7%Z, 3%Z, [2; 1]%float, [4; 4]%float, (-1)%Z).
+Proof. vm_compute. reflexivity. Qed.
